@@ -322,6 +322,59 @@ func TestC13Random(t *testing.T) {
 	})
 }
 
+// TestC13Lookalikes: texts that look like values of another kind stay texts.
+func TestC13Lookalikes(t *testing.T) {
+	run := h.Begin("C13", "lookalikes", "a fixed list and rapid-generated texts that look like something else: timestamps in 20 layouts (RFC 3339 with and without fraction/offset, dates, clock times, RFC 1123/822, ANSI C) at random instants of years 1..9999, date-like digit groups with impossible fields, numbers in every spelling (signs, fractions, exponents, 0x/0b/0o, leading zeros, separators, NaN/Infinity, blanks around), keywords of this and other languages, JSON and Go-printed documents, formula source, format verbs, durations, zone names, UUID/URL/path shapes; spelled raw in either quote style or with one random character escaped; oracle: byte-exact round trip standalone, in an array, in a concatenation and through len(), and the value is a string (typeof and a second evaluation of the same tree included); non-trivial: all (each text parses as a non-string value under some common reader); distinct by literal")
+	defer run.End(t)
+	one := func(text, cls string, lit string) string {
+		msg := checkString(lit, text)
+		if msg == "" {
+			out := obs.EvalText("[typeof "+lit+", "+lit+" == "+lit+", "+lit+" + '' == '' + "+lit+"]", nil)
+			if arr, ok := out.Val.([]interface{}); out.Panic != nil || out.Err != nil || !ok || len(arr) != 3 || arr[0] != "string" || arr[1] != true || arr[2] != true {
+				msg = fmt.Sprintf("[typeof x, x == x, x+'' == ''+x] for x = %s yields %s, want ['string', true, true]", strconv.QuoteToASCII(lit), out)
+			}
+		}
+		return msg
+	}
+	for i, text := range lookalikeFixed {
+		if !h.Mine(int64(i)) {
+			continue
+		}
+		for _, lit := range []string{escapeForLiteral(text), `"` + strings.ReplaceAll(strings.ReplaceAll(text, `\`, `\\`), `"`, `\"`) + `"`} {
+			run.CountKey(lit, true, "fixed")
+			if msg := one(text, "fixed", lit); msg != "" {
+				run.Fail("c13", mkStrCase(lit, text), msg)
+			}
+		}
+	}
+	h.RapidSetup(h.N(3000, 600000), "c13look")
+	rapid.Check(t, func(rt *rapid.T) {
+		text, cls := genLookalike(rt)
+		q := rapid.SampledFrom([]byte{'\'', '"'}).Draw(rt, "quote")
+		ps := splitPieces(text)
+		escAt := -1
+		if len(ps) > 0 && rapid.IntRange(0, 2).Draw(rt, "escape") == 0 {
+			escAt = rapid.IntRange(0, len(ps)-1).Draw(rt, "escAt")
+		}
+		lit := string(q)
+		for i, p := range ps {
+			fs := formsFor(p.r, p.valid, q)
+			f := fs[0]
+			if i == escAt {
+				f = fs[rapid.IntRange(0, len(fs)-1).Draw(rt, "form")]
+			}
+			lit += spell(p.r, p.raw, f, false)
+		}
+		lit += string(q)
+		run.CountKey(lit, true, cls)
+		run.Sample(cls, mkStrCase(lit, text))
+		if msg := one(text, cls, lit); msg != "" {
+			run.Pending("look", "c13", mkStrCase(lit, text), msg)
+			rt.Fatalf("%s", msg)
+		}
+	})
+}
+
 // FuzzC13StringRoundTrip: native fuzzing; choices drive the escaper.
 func FuzzC13StringRoundTrip(f *testing.F) {
 	f.Add([]byte("it's"), []byte{0, 1, 2, 3})
